@@ -1269,6 +1269,17 @@ func (w *aWorld) anchorLoop(st *refmodel.State) {
 	w.advance()
 	p := &opPlan{typ: typ, key: key, kind: "loop", patches: w.genPatches(false, false)}
 
+	selfLoop := target == cur
+
+	// the same commitment in another base64url spelling (a lenient decoder accepts several for one multihash): still the
+	// commitment of that key
+	if T.Draw(4, "loop.respelt") == 0 {
+		if r := refmodel.Respell(target); refmodel.Canon(r) == refmodel.Canon(target) && r != target {
+			target = r
+			w.k.Count("probe:loop-commitment-in-another-spelling")
+		}
+	}
+
 	if typ == operation.TypeUpdate {
 		p.nextUpdC = target
 	} else {
@@ -1276,7 +1287,7 @@ func (w *aWorld) anchorLoop(st *refmodel.State) {
 		p.nextUpd = w.newKey("upd")
 	}
 
-	if target == cur {
+	if selfLoop {
 		p.kind = "self-loop"
 	}
 
@@ -1286,7 +1297,7 @@ func (w *aWorld) anchorLoop(st *refmodel.State) {
 	w.k.Count("probe:" + p.kind)
 
 	// intake must refuse a request that re-commits to the key it reveals
-	if target == cur {
+	if selfLoop {
 		if _, err := w.version().Parser.Parse("did:sim", req); err == nil {
 			w.fail("C12", "intake/self-loop-accepted", fmt.Sprintf("intake accepted a %s whose next commitment is the commitment of the key it reveals", typ))
 		}
